@@ -14,6 +14,8 @@ use std::process::{Command, Stdio};
 pub enum Ent {
     File { name: String, bytes: Vec<u8> },
     Dir { name: String, kids: Vec<Ent> },
+    /// symbolic link to a path (relative to the directory that holds the link)
+    Link { name: String, target: String },
 }
 
 pub fn build(root: &str, ents: &[Ent]) {
@@ -27,6 +29,9 @@ pub fn build(root: &str, ents: &[Ent]) {
                 std::fs::create_dir(&d).expect("mkdir tree dir");
                 build(&d, kids);
             }
+            Ent::Link { name, target } => {
+                let _ = std::os::unix::fs::symlink(target, format!("{}/{}", root, name));
+            }
         }
     }
 }
@@ -37,6 +42,7 @@ pub fn to_json(ents: &[Ent]) -> Value {
             .map(|e| match e {
                 Ent::File { name, bytes } => json!({"file": name, "bytes": bytes.len(), "head": trunc(&String::from_utf8_lossy(&bytes[..bytes.len().min(80)]), 80)}),
                 Ent::Dir { name, kids } => json!({"dir": name, "entries": to_json(kids)}),
+                Ent::Link { name, target } => json!({"symlink": name, "target": target}),
             })
             .collect(),
     )
@@ -214,12 +220,30 @@ pub fn gen_tree_eligible(rng: &Rng, pool: &Pool, depth: usize, max_files: usize,
         if used.insert(n.clone()) {
             let (_, text) = rng.pick(&pool.progs);
             ents.push(Ent::File { name: n.clone(), bytes: text.clone().into_bytes() });
+            // now and then the same content again under a name that differs only by a leading zero in its number
+            if rng.chance(1, 10) {
+                if let Some(i) = n.find(|c: char| c.is_ascii_digit()) {
+                    let n3 = format!("{}0{}", &n[..i], &n[i..]);
+                    if used.insert(n3.clone()) {
+                        ents.push(Ent::File { name: n3, bytes: text.clone().into_bytes() });
+                    }
+                }
+            }
             // now and then the same content again under a name that differs only in letter case
             if rng.chance(1, 8) {
                 let n2 = if n.chars().next().map(|c| c.is_ascii_uppercase()).unwrap_or(false) { n.to_lowercase() } else { n.to_uppercase().replace(".SOL", ".sol") };
                 if n2 != n && n2.ends_with(".sol") && used.insert(n2.clone()) {
                     ents.push(Ent::File { name: n2, bytes: text.clone().into_bytes() });
                 }
+            }
+        }
+    }
+    // clearly ineligible files with parseable, finding-rich content (they must simply be skipped)
+    if rng.chance(1, 4) {
+        for n in ["README.md", "Helper.t.sol", "notes.txt", "Old.sol.bak"] {
+            if rng.chance(1, 2) && used.insert(n.to_string()) {
+                let (_, text) = rng.pick(&pool.progs);
+                ents.push(Ent::File { name: n.to_string(), bytes: text.clone().into_bytes() });
             }
         }
     }
@@ -270,11 +294,13 @@ pub fn c13_binary_part(ctx: &Ctx, acc: &mut Acc) {
         return;
     }
     let n = ctx.tier.pick(30u64, 4000u64);
-    let reps = ctx.tier.pick(4usize, 8usize);
+    let reps = ctx.tier.pick(6usize, 8usize);
     run_workload(ctx, acc, "binary-determinism", n, |k, rng, acc| {
         let ents = gen_tree_eligible(rng, &pool, 0, 6, 2);
         let base = scratch_dir("c13");
         let mut reports: Vec<(String, Vec<u8>)> = vec![];
+        // runs with a toml that lists two names twice: compared with each other (the duplicated names are in every one of them)
+        let mut toml_reports: Vec<Vec<u8>> = vec![];
         for r in 0..reps {
             // copy r: same content, different creation order => different listing order on tmpfs
             let root = format!("{}/copy{}", base, r);
@@ -307,6 +333,9 @@ pub fn c13_binary_part(ctx: &Ctx, acc: &mut Acc) {
                 let mut o: Vec<String> = patterns_of("optimizations").iter().map(|s| s.to_string()).collect();
                 let mut v: Vec<String> = patterns_of("vulnerabilities").iter().map(|s| s.to_string()).collect();
                 let mut q: Vec<String> = patterns_of("qa").iter().map(|s| s.to_string()).collect();
+                // the same multiset of names in every such variant (sstore and floating_pragma listed twice), in another order
+                o.push("sstore".to_string());
+                v.push("floating_pragma".to_string());
                 rng.shuffle(&mut o);
                 rng.shuffle(&mut v);
                 rng.shuffle(&mut q);
@@ -324,12 +353,25 @@ pub fn c13_binary_part(ctx: &Ctx, acc: &mut Acc) {
                         acc.inconclusive(format!("solstat failed on a pool tree: code {:?} stderr {}", out.code, trunc(&out.stderr, 200)));
                         break;
                     }
-                    reports.push((variant.to_string(), out.report.unwrap()));
+                    if variant == "permuted-toml-pattern-lists" {
+                        toml_reports.push(out.report.unwrap());
+                    } else {
+                        reports.push((variant.to_string(), out.report.unwrap()));
+                    }
                 }
                 Err(e) => {
                     acc.inconclusive(e);
                     break;
                 }
+            }
+        }
+        for tr in toml_reports.iter().skip(1) {
+            if tr != &toml_reports[0] {
+                let a = String::from_utf8_lossy(&toml_reports[0]).to_string();
+                let b = String::from_utf8_lossy(tr).to_string();
+                let d = a.bytes().zip(b.bytes()).position(|(x, y)| x != y).unwrap_or(a.len().min(b.len()));
+                acc.violation("order:config", json!({"tree": to_json(&ents), "note": "two toml files listing the same multiset of names in different orders", "first_difference_at_byte": d, "report_a": around(&a, d, 80, 300), "report_b": around(&b, d, 80, 300)}));
+                break;
             }
         }
         // a working directory that already holds the report of a *different* finding set of the same rendered length:
@@ -361,7 +403,7 @@ pub fn c13_binary_part(ctx: &Ctx, acc: &mut Acc) {
         if reports.len() >= 2 {
             let nfiles = {
                 fn count(es: &[Ent]) -> usize {
-                    es.iter().map(|e| match e { Ent::File { .. } => 1, Ent::Dir { kids, .. } => count(kids) }).sum()
+                    es.iter().map(|e| match e { Ent::File { .. } => 1, Ent::Dir { kids, .. } => count(kids), Ent::Link { .. } => 1 }).sum()
                 }
                 count(&ents)
             };
